@@ -178,6 +178,55 @@ def model_and_judge(o, v):
     return bad
 
 
+CANON = "---\nsource_dir: ./src\nuse_cache: true\nrust:\n  structured: true\n  log_macros:\n    - module: log\n      name: info\n  extensions:\n    - rs\n    - txt\n"
+# the same configuration written differently: must behave exactly like CANON
+EQUIVALENT = {
+    "key-order": "rust:\n  extensions:\n    - rs\n    - txt\n  log_macros:\n    - name: info\n      module: log\n  structured: true\nuse_cache: true\nsource_dir: ./src\n",
+    "comments+blank-lines": "# project configuration\n---\n\nsource_dir: ./src   # sources\n\nuse_cache: true\nrust:\n  # style\n  structured: true\n  log_macros:\n    - module: log   # crate\n      name: info\n\n  extensions:\n    - rs\n    - txt\n# end\n",
+    "flow-style": "{source_dir: ./src, use_cache: true, rust: {structured: true, log_macros: [{module: log, name: info}], extensions: [rs, txt]}}\n",
+    "quoted-scalars": "source_dir: \"./src\"\nuse_cache: true\nrust:\n  structured: true\n  log_macros:\n    - module: 'log'\n      name: \"info\"\n  extensions:\n    - 'rs'\n    - \"txt\"\n",
+    "anchor+alias": "source_dir: ./src\nuse_cache: true\nrust:\n  structured: true\n  log_macros:\n    - &m\n      module: log\n      name: info\n    - *m\n  extensions:\n    - rs\n    - txt\n",
+    "document-end-marker": "---\nsource_dir: ./src\nuse_cache: true\nrust:\n  structured: true\n  log_macros:\n    - module: log\n      name: info\n  extensions:\n    - rs\n    - txt\n...\n",
+    "crlf": CANON.replace("\n", "\r\n"),
+    "deeper-indent": "source_dir: ./src\nuse_cache: true\nrust:\n      structured: true\n      log_macros:\n          - module: log\n            name: info\n      extensions:\n          - rs\n          - txt\n",
+    "defaults-spelled-out-elsewhere": "source_dir: ./src\nrust:\n  structured: true\n  log_macros:\n    - module: log\n      name: info\n  extensions:\n    - rs\n    - txt\n",   # use_cache omitted = true
+}
+# spellings a YAML reader may accept or reject: either "invalid configuration" (non-zero exit, nothing changed) or exactly like CANON
+EITHER = {
+    "bool-yes": CANON.replace("use_cache: true", "use_cache: yes"),
+    "bool-capitalised": CANON.replace("use_cache: true", "use_cache: True").replace("structured: true", "structured: TRUE"),
+    "bool-as-string": CANON.replace("use_cache: true", "use_cache: \"true\""),
+    "bool-as-number": CANON.replace("structured: true", "structured: 1"),
+    "duplicate-key": CANON + "source_dir: ./src\n",
+    "unknown-keys": CANON.replace("rust:\n", "owner: team\nrust:\n  color: blue\n"),
+    "bom": "\ufeff" + CANON,
+    "tab-indent": CANON.replace("  structured", "\tstructured"),
+    "extensions-scalar": CANON.replace("  extensions:\n    - rs\n    - txt\n", "  extensions: rs\n"),
+    "extensions-empty": CANON.replace("  extensions:\n    - rs\n    - txt\n", "  extensions: []\n"),
+    "null-value": CANON.replace("use_cache: true", "use_cache: ~"),
+}
+
+
+def _variant_job(args):
+    name, text, check, work = args
+    proj = os.path.join(work, "proj")
+    tmp = os.path.join(work, "tmp")
+    os.makedirs(tmp)
+    tree = dict(TREES_STRUCT["missing"])
+    tree["Breadlog.yaml"] = text
+    cli.write_tree(proj, tree)
+    before = {k: (c.encode() if isinstance(c, str) else c) for k, c in tree.items()}
+    r = cli.run_breadlog(os.path.join(proj, "Breadlog.yaml"), check=check, cwd=work, tmpdir=tmp, timeout=30)
+    after = cli.read_tree(proj)
+    changed = {}
+    for f in sorted(set(before) | set(after)):
+        if before.get(f) != after.get(f):
+            s = cli.token_strip(before.get(f, b""), after.get(f, b"")) if f in before and f in after else None
+            changed[f] = [(off, cli.token_style(t)) for off, t in s] if s is not None else "not-token-only"
+    shutil.rmtree(work, ignore_errors=True)
+    return name, check, r.exit, r.signal, r.panicked, changed
+
+
 def parse_lock(b):
     """Model of 'the lock can be parsed': apart from comments, blank lines and a document marker the file is exactly one
     `next_reference_id: <u32>` mapping entry. Anything else (conflict markers, other text) is 'cannot be parsed'."""
@@ -242,6 +291,31 @@ def run(tier, v):
     v.subspace("full product use_cache{omitted,true,false} x structured{omitted,true,false} x extensions{omitted,[rs],[txt]} x lock{absent,max+1,ahead,"
                "corrupt,empty,git-conflict} x tree{missing,nothing missing,no in-scope file} x mode, each inserting edit run followed by (delete max statement, add one, edit)",
                len(jobs) - 2 * len(INVALID), exhaustive=True, distinct_outcomes=len(outcomes))
+    # the configuration file written differently
+    vjobs = []
+    for name, text in [("CANON", CANON)] + sorted(EQUIVALENT.items()) + sorted(EITHER.items()):
+        for check in (True, False):
+            w = os.path.join(base, "v%d" % len(vjobs))
+            os.makedirs(w)
+            vjobs.append((name, text, check, w))
+    with multiprocessing.Pool(NCPU) as pool:
+        vres = {(n_, c_): (e_, sg_, p_, ch_) for n_, c_, e_, sg_, p_, ch_ in pool.map(_variant_job, vjobs)}
+    for (name, check), (ex_, sg_, pan_, ch_) in sorted(vres.items()):
+        v.count()
+        v.distinct(("config-variant", name, check))
+        canon = vres[("CANON", check)]
+        same = (ex_, ch_) == (canon[0], canon[3])
+        invalid = ex_ not in (0, None) and not ch_
+        if pan_ or sg_ is not None:
+            v.violation("config-variant:abnormal-termination:" + name, {"variant": name, "mode": "check" if check else "edit"})
+        elif name in EQUIVALENT and not same:
+            v.violation("config-variant-behaves-differently:" + name, {"variant": name, "mode": "check" if check else "edit", "exit": ex_, "changed": repr(ch_)[:300],
+                                                                       "canonical_exit": canon[0], "canonical_changed": repr(canon[3])[:300], "text": (EQUIVALENT[name])})
+        elif name in EITHER and not (same or invalid):
+            v.violation("config-variant-neither-rejected-nor-equivalent:" + name, {"variant": name, "mode": "check" if check else "edit", "exit": ex_, "changed": repr(ch_)[:300],
+                                                                                  "canonical_exit": canon[0], "canonical_changed": repr(canon[3])[:300], "text": EITHER[name]})
+    v.subspace("the same configuration written %d equivalent ways (must behave like the canonical text) and %d debatable ways (rejected without "
+               "changing anything, or like the canonical text) x mode" % (len(EQUIVALENT), len(EITHER)), len(vjobs))
     v.subspace("invalid set-ups {config missing, invalid YAML, source_dir key missing / nonexistent / a file} x mode", 2 * len(INVALID))
     v.sample({"use_cache": "omitted", "structured": "omitted", "extensions": "omitted", "lock": "corrupt", "tree": "missing", "mode": "edit",
               "model": "exit 0; a.rs gets one `[ref: N] ` with N >= 8; b.txt untouched; lock valid and > every ID; follow-up run starts from it"})
